@@ -248,8 +248,8 @@ def run_c19(ctx, pid):
         if k not in seen:
             seen.add(k)
             cbeh.append(b)
-    if quick and len(cbeh) > 480:
-        cbeh = cbeh[:len(cexh)] + vlib.sample(ctx.rng, cbeh[len(cexh):], 480 - len(cexh))
+    if quick and len(cbeh) > len(cexh) + 150:
+        cbeh = cbeh[:len(cexh)] + vlib.sample(ctx.rng, cbeh[len(cexh):], 150)
     # operation sequences: distinct sequences of length D; quick samples them (seeded), favouring sequences that schedule something
     seen, sbeh = set(), []
     for b in sall:
@@ -332,7 +332,7 @@ def run_c19(ctx, pid):
                     [[o["op"], o["ref"], o["arg"]] for o in sbeh[-1]]],
         "evaluations": len(cbeh) + len(sbeh), "distinct_nontrivial": nontrivial + len(cbeh),
         "rule": "claim race: every interleaving of the job-function steps (fire, staleness check, NX claim, tell) of 2 nodes x 1 tick with stale "
-                "nodes, registry faults and claim expiry (TLC BFS) plus TLC random walks for 3 nodes x 2 ticks, replayed with the puppet "
+                "nodes, claim writes that fail / time out unapplied / time out after being applied, and claim expiry (TLC BFS) plus TLC random walks for 3 nodes x 2 ticks, replayed with the puppet "
                 "scheduler; operation sequences: distinct sequences of length D over ScheduleOnce / Schedule / Pause / Resume / Cancel / wait "
                 "(TLC BFS, seeded sample) executed in real time (tick 100 ms); non-trivial = schedules something and stops / resumes it",
         "exhaustive": True, "claim_behaviours": len(cbeh), "claim_exhaustive": len(cexh), "op_sequences": len(sbeh), "op_sequences_total": nseq,
